@@ -9,7 +9,7 @@
 From Coq Require Import List ZArith.
 Import ListNotations.
 From KDB Require Import Util PropDefs PropProofs.
-From KDB Require PropLazyEval PropSimLazy PropNotify.
+From KDB Require PropLazyEval PropSimLazy PropNotify PropEq PropEqProofs.
 
 Theorem C13_clean_runs_nothing :
   forall fn rtl val t, root_dirty t = false -> snd (eval fn rtl val t) = [].
@@ -68,6 +68,29 @@ Theorem C13_evaluate_all_when_nothing_changed_runs_nothing :
     step1 fn rtl (S fuel) w1 (BevEvalAll e) = (w2, r) -> r = None /\ w_trace w2 = w_trace w1.
 Proof. exact PropNotify.lazy_second_evalall_runs_nothing. Qed.
 Print Assumptions C13_evaluate_all_when_nothing_changed_runs_nothing.
+
+(* "changed" is what the property's equality relation says: assigning an input a value equal to its current one is no change - the world
+   stays exactly as it was (no binding node is marked, no function runs, nothing is recorded) ... *)
+Theorem C13_write_of_equal_value_runs_nothing :
+  forall fn rtl f w p pr, lookup (w_props w) p = Some pr -> set_helper fn rtl (S f) w p (pr_value pr) = (w, None).
+Proof. exact set_equal_is_silent. Qed.
+Print Assumptions C13_write_of_equal_value_runs_nothing.
+
+(* ... and this for EVERY equality relation (coq/PropEq.v: operator== whether noexcept or not, a specialised equal_to, ...): no subscriber
+   of valueChanged - the PropertyNode of a binding is one - hears of a write the relation deems equal.  The equality layer of the
+   correspondence runs this model against Property<T> with immediate bindings reading it (`ebind`, `fn` observations). *)
+Theorem C13_write_of_equal_value_notifies_no_binding_any_equality :
+  forall (V : Type) (eqv : V -> V -> bool) s v, eqv v (PropEq.e_cur s) = true -> PropEq.ewrite V eqv s v = (s, []).
+Proof. exact PropEqProofs.write_equal_silent. Qed.
+Print Assumptions C13_write_of_equal_value_notifies_no_binding_any_equality.
+
+(* non-vacuity: a class type with plain operator== (flavour FLoose), two changed-subscribers (one of them a binding): writing 7 over 7 is silent,
+   writing 8 reaches both *)
+Example C13_equal_write_example :
+  let s := PropEq.Build_est Z 7%Z 0 2 in
+  snd (PropEq.ewrite Z (PropEq.eqv_of PropEq.FLoose) s 7%Z) = [] /\
+  length (snd (PropEq.ewrite Z (PropEq.eqv_of PropEq.FLoose) s 8%Z)) = 2.
+Proof. vm_compute. split; reflexivity. Qed.
 
 (* the strict statement is false in immediate mode: f(x, x) runs f twice for one change of x *)
 Theorem C13_multipath_refuted :
